@@ -55,7 +55,7 @@ Proof.
   intros e fl. exists (keys_msg e). unfold has_msg. split; [apply in_expand_head; cbn; auto|].
   cbn [keys_msg m_name m_psm m_oneof m_fields]. rewrite cn_keys. repeat split.
   apply (Forall2_map_r _ (fun k => of_ufield (k_def k))). intros k _.
-  unfold key_name, key_primary, of_ufield. destruct (uf_kind (k_def k)) as [pt j|n|n|n|p fo te];
+  unfold key_name, key_primary, of_ufield. destruct (uf_kind (k_def k)) as [pt j|n|n|n|p fo te|tn j|i|i];
     cbn [f_json f_primary f_required]; repeat split; try discriminate; auto.
   - intros ->. reflexivity.
   - intros ->. apply orb_true_r.
@@ -66,7 +66,7 @@ Proof.
   intros e fl. exists (data_msg e). unfold has_msg. split; [apply in_expand_head; cbn; auto|].
   cbn [data_msg m_name m_psm m_oneof m_fields]. rewrite cn_data. repeat split.
   apply Forall2_map_r. intros u _. unfold of_ufield.
-  destruct (uf_kind u) as [pt j|n|n|n|p fo te]; cbn [f_json f_required]; split; try reflexivity; auto.
+  destruct (uf_kind u) as [pt j|n|n|n|p fo te|tn j|i|i]; cbn [f_json f_required]; split; try reflexivity; auto.
   intros ->. reflexivity.
 Qed.
 
@@ -862,6 +862,15 @@ Proof.
   eexists. eexists. split; [vm_compute; reflexivity|]. split; [vm_compute; reflexivity|].
   split; [unfold has_msg; do 5 right; left; reflexivity|]. split; vm_compute; reflexivity.
 Qed.
+
+(* an optional array compiles, and the descriptor set is one protodesc.NewFiles rejects *)
+Definition optional_array_sample : entity :=
+  mkE (bs "foo.v1") (bs "Foo") [] [mkK (mkU (bs "fooId") (KKey true None None) false false) false]
+      [mkU (bs "tags") (KArray (IScalar 9 (bs "string"))) false true] [bs "ACTIVE"] [] [] [] None [].
+Theorem optional_repeated_refuted :
+  exists cs, in_quantifier optional_array_sample = true /\ reserved_free optional_array_sample = true
+    /\ compile optional_array_sample = Ok cs /\ client_accepts cs = false.
+Proof. eexists. repeat split; vm_compute; reflexivity. Qed.
 
 Theorem full_refuted : ~ C17_full_statement_def.
 Proof.
